@@ -148,7 +148,49 @@ static void c18_on_result(long idx, const run_res_t *r) {
 	if (fail >= 0 && nresume < 4096) { resume[nresume][0] = round_base + idx; resume[nresume][1] = fail; nresume++; }
 }
 #define C18_BATCH 1200
-void c18_register(void) { harness_register("c18.send", c18_child); }
+
+/* ---------------------------------------------------------------- c18.sched (E1): every function against a concurrent call
+ * Thread 1 calls function f (default boundary arguments) for a node at depth 3, thread 2 sends a ping to a node at depth 1
+ * (other address length, other message length), the write callback may block.  The messages on the wire (destination,
+ * type, data; sequence numbers aside) must be exactly those of the same two calls made one after the other in the same
+ * process — an encoder that shares scratch state between calls mixes the header of one call with the body of the other. */
+static const c18_fn_t *sf; static c18_case_t scs; static uint8_t *spayload;
+static void *sched_t1(void *arg) { (void) arg; sf->call(NODES[3], scs.a, scs.plen, spayload); return NULL; }
+static void *sched_t2(void *arg) { (void) arg; t_bidib_node_address n7 = {7, 0, 0}; bidib_send_sys_ping(n7, 0x77, 0); return NULL; }
+static int wire_set(size_t from, char out[8][400]) {
+	static rc_pkt_t pk[8]; char err[160]; int k = 0;
+	int np = rc_decode_strict(env_out() + from, env_out_len() - from, pk, 8, err, sizeof err);
+	if (np < 0) { snprintf(out[0], 400, "malformed: %s", err); return -1; }
+	for (int i = 0; i < np; i++) for (int j = 0; j < pk[i].nmsgs && k < 8; j++) { rc_msg_t *m = &pk[i].msgs[j]; snprintf(out[k++], 400, "to %02x.%02x.%02x type %02x data %s", m->addr[0], m->addr[1], m->addr[2], m->type, hx_hex(m->data, (size_t) m->dlen)); }
+	/* sort */
+	for (int a = 0; a < k; a++) for (int b = a + 1; b < k; b++) if (strcmp(out[a], out[b]) > 0) { char t[400]; memcpy(t, out[a], 400); memcpy(out[a], out[b], 400); memcpy(out[b], t, 400); }
+	return k;
+}
+static void c18_sched_child(const void *job, size_t n) {
+	vs_dev_t devs[VS_MAXDEV]; int nd; size_t pl; const uint8_t *p = job_parse(job, n, devs, &nd, &pl);
+	sf = &c18_fns[p[0]]; fn_case(sf, 0, &scs); spayload = malloc(scs.plen ? (size_t) scs.plen : 1); for (int i = 0; i < scs.plen; i++) spayload[i] = (uint8_t) (0x61 + i % 20);
+	hx_child_begin(devs, nd, 1, NULL, 0, 0);
+	if (hx_start_debug(0)) res_infra("start failed");
+	hx_quiesce();
+	/* sequential reference in the same process */
+	static char ref[8][400], got[8][400];
+	size_t from = env_out_len(); sched_t1(NULL); sched_t2(NULL); bidib_flush(); hx_quiesce(); int nref = wire_set(from, ref);
+	vs_sleep_us(2500000); hx_quiesce();
+	from = env_out_len(); env_write_yields = 1;
+	vs_window(1);
+	int t1 = vs_spawn(sched_t1, NULL), t2 = vs_spawn(sched_t2, NULL); vs_join_tid(t1); vs_join_tid(t2);
+	vs_window(0);
+	env_write_yields = 0; bidib_flush(); hx_quiesce();
+	int ngot = wire_set(from, got); int same = ngot == nref; for (int i = 0; same && i < nref; i++) if (strcmp(ref[i], got[i])) same = 0;
+	hx_hash_t h; hx_hash_init(&h); for (int i = 0; i < ngot && i < 8; i++) hx_hash_str(&h, got[i]);
+	if (!same) { char cls[200]; snprintf(cls, sizeof cls, "concurrent-call-changes-encoding fn=%s: the messages of two concurrent calls differ from those of the same calls made one after the other", sf->name);
+		char a[900] = "", b[900] = ""; for (int i = 0; i < nref && i < 3; i++) { strncat(a, ref[i], 280); strcat(a, " | "); } for (int i = 0; i < (ngot < 0 ? 1 : ngot) && i < 3; i++) { strncat(b, got[i], 280); strcat(b, " | "); }
+		res_violation(cls, "sequential: %s concurrent: %s", a, b); }
+	hx_emit_san_events("c18.sched"); hx_emit_ledger_violations("C18");
+	res_printf("O %llx %llx\n", (unsigned long long) h.a, (unsigned long long) h.b);
+	hx_emit_trace(); res_finish();
+}
+void c18_register(void) { harness_register("c18.send", c18_child); harness_register("c18.sched", c18_sched_child); }
 int c18_run(const char *tier) {
 	int thorough = !strcmp(tier, "thorough");
 	njobs = 0; long total = 0;
@@ -169,6 +211,13 @@ int c18_run(const char *tier) {
 			add_job(j.fn, j.node, fail + 1, (long) j.start + j.count - (fail + 1)); }
 		if (rep_nviol() > 120) { exhaustive = 0; break; }
 	}
+	long sch = 0; int schex = 1;
+	{ const char *variant = getenv("VERIF_VARIANT"); int defv = variant && (!strcmp(variant, "autop") || !strcmp(variant, "autoz"));
+	  for (int f = 0; f < NFN && !defv; f++) { if (!c18_fns[f].takes_node) continue; uint8_t sp[1] = {(uint8_t) f}; char label[120]; snprintf(label, sizeof label, "c18.sched %s || bidib_send_sys_ping", c18_fns[f].name);
+		e1_spec_t es = { .harness = "c18.sched", .param = sp, .nparam = 1, .bound = thorough ? 2 : 1, .label = strdup(label) };
+		e1_explore(&es); for (int k = 0; k < 8; k++) sch += es.schedules_by_cost[k]; if (!es.exhaustive) schex = 0; }
+	  if (!defv) rep_note("c18.sched: every function with a node parameter against a concurrent ping to a node of another depth, %ld schedules, preemption bound %d", sch, thorough ? 2 : 1); }
+	execs += sch; if (!schex) exhaustive = 0;
 	long calls = rep_get("c18_accepted") + rep_get("c18_rejected");
 	rep_count("executions", execs); rep_count("states", states ? states : 1); rep_count("transitions", calls); rep_count("distinct_nontrivial", calls);
 	rep_flag("exhaustive", exhaustive);
